@@ -22,8 +22,11 @@ impl Item for i128 {
     }
 }
 impl Item for &'static str {
+    /// A raw identifier `r#type` IS the identifier `type`; whether its name is spelled with or
+    /// without the `r#` is not something C08 fixes, so observations of names are compared modulo one
+    /// leading `r#`. (The zip invariant still demands that names() and as_str agree exactly.)
     fn render(&self) -> String {
-        format!("{:?}", self)
+        format!("{:?}", self.strip_prefix("r#").unwrap_or(self))
     }
     fn key(&self) -> i64 {
         (self.len() % 5) as i64
